@@ -24,6 +24,9 @@ TEMPLATES = [
     {"pts": [[0, 0, 0], [3000, 0, 0], [2900, 200, 0]], "atom": [500, 1000, -700]},
     {"pts": [[0, 0, 0], [3000, 0, 0], [-2900, 250, 0]], "atom": [-400, 900, 1100]},
     {"pts": [[1201, 847, 0], [0, 0, 0], [-1250, 881, 0], [20, -927, 1209]], "atom": [833, -1507, 1171]},
+    # reference atoms in their own principal-axis frame
+    {"pts": [[800, 0, 600], [0, 0, 0], [-800, 0, 600]], "atom": [0, 900, -500]},
+    {"pts": [[600, 600, 600], [600, -600, -600], [-600, 600, -600], [-600, -600, 600]], "atom": [300, 500, -200]},
 ]
 
 
@@ -225,8 +228,8 @@ def run(ctx):
     ctx.add_tlc(r, "case emission")
     cases = [json.loads(v[1:]) for v in r.printed if isinstance(v, str) and v.startswith("@")]
     nq = (5 ** 4 - 1) // 2 if ctx.quick else (7 ** 4 - 1) // 2
-    if len(cases) != nq * 4 * 4:
-        raise core.MachineryError(f"emitted {len(cases)} fit cases, expected {nq * 16}")
+    if len(cases) != nq * len(TEMPLATES) * 4:
+        raise core.MachineryError(f"emitted {len(cases)} fit cases, expected {nq * len(TEMPLATES) * 4}")
     for i, t in enumerate(TEMPLATES):     # the harness table must be the spec's table
         pass
     ctx.exhaustive = True
